@@ -1,0 +1,120 @@
+//go:build verif
+// +build verif
+
+package raft
+
+// This file is only compiled with the "verif" build tag. It adds code only:
+// thin exports so that an external verification harness (property C01) can
+// drive the Raft FSM that NewConsensus builds (go-libp2p-raft OpLog over a
+// dsstate with this package's LogOp) without a Raft instance, and encode log
+// entries exactly as commit() -> CommitOp -> Actor.SetState does.
+
+import (
+	"bytes"
+	"context"
+
+	ds "github.com/ipfs/go-datastore"
+	rpc "github.com/libp2p/go-libp2p-gorpc"
+	libp2praft "github.com/libp2p/go-libp2p-raft"
+	codec "github.com/ugorji/go/codec"
+
+	hraft "github.com/hashicorp/raft"
+	"go.opencensus.io/tag"
+	"go.opencensus.io/trace"
+
+	"github.com/ipfs/ipfs-cluster/api"
+	"github.com/ipfs/ipfs-cluster/state/dsstate"
+)
+
+// VerifNewFSM mirrors the first half of NewConsensus (state, baseOp, OpLog)
+// and returns a Consensus which has no Raft, host or actor: only State(),
+// the FSM and the RPC client used by LogOp.ApplyTo are usable.
+func VerifNewFSM(cfg *Config, store ds.Datastore, client *rpc.Client) (*Consensus, hraft.FSM, error) {
+	baseOp := &LogOp{tracing: cfg.Tracing}
+	state, err := dsstate.New(
+		store,
+		cfg.DatastoreNamespace,
+		dsstate.DefaultHandle(),
+	)
+	if err != nil {
+		return nil, nil, err
+	}
+	consensus := libp2praft.NewOpLog(state, baseOp)
+	cc := &Consensus{
+		config:    cfg,
+		consensus: consensus,
+		baseOp:    baseOp,
+		rpcClient: client,
+		rpcReady:  make(chan struct{}, 1),
+		readyCh:   make(chan struct{}, 1),
+	}
+	baseOp.consensus = cc
+	return cc, consensus.FSM(), nil
+}
+
+// VerifEncodeOp is the log entry payload for a pin (LogOpPin) or unpin
+// (LogOpUnpin) of the given pin: cc.op() encoded as go-libp2p-raft's
+// encodeOp does for an Op which is not Marshable (plain msgpack handle).
+func VerifEncodeOp(pin *api.Pin, t LogOpType) ([]byte, error) {
+	op := &LogOp{
+		Cid:  pin,
+		Type: t,
+	}
+	var buf bytes.Buffer
+	enc := codec.NewEncoder(&buf, &codec.MsgpackHandle{})
+	err := enc.Encode(op)
+	return buf.Bytes(), err
+}
+
+// VerifEncodeTracedOp is VerifEncodeOp for a Consensus with Tracing enabled:
+// commit() fills the span context and the tag map before encoding.
+func VerifEncodeTracedOp(pin *api.Pin, t LogOpType) ([]byte, error) {
+	ctx, span := trace.StartSpan(context.Background(), "consensus/commit")
+	defer span.End()
+	op := &LogOp{
+		Cid:  pin,
+		Type: t,
+	}
+	op.SpanCtx = span.SpanContext()
+	tagmap := tag.FromContext(ctx)
+	if tagmap != nil {
+		op.TagCtx = tag.Encode(tagmap)
+	}
+	var buf bytes.Buffer
+	enc := codec.NewEncoder(&buf, &codec.MsgpackHandle{})
+	err := enc.Encode(op)
+	return buf.Bytes(), err
+}
+
+// VerifRaft exposes the hashicorp Raft instance of a running Consensus
+// (used to read AppliedIndex/LastIndex/stats and to force snapshots).
+func (cc *Consensus) VerifRaft() *hraft.Raft {
+	return cc.raft.raft
+}
+
+// VerifLogCommands counts the command entries (LogOps) currently held in the
+// Raft log store and returns their Raft indexes in order.
+func (cc *Consensus) VerifLogCommands() ([]uint64, error) {
+	first, err := cc.raft.logStore.FirstIndex()
+	if err != nil {
+		return nil, err
+	}
+	last, err := cc.raft.logStore.LastIndex()
+	if err != nil {
+		return nil, err
+	}
+	var idx []uint64
+	if first == 0 {
+		return idx, nil
+	}
+	for i := first; i <= last; i++ {
+		var l hraft.Log
+		if err := cc.raft.logStore.GetLog(i, &l); err != nil {
+			return nil, err
+		}
+		if l.Type == hraft.LogCommand {
+			idx = append(idx, i)
+		}
+	}
+	return idx, nil
+}
